@@ -44,6 +44,7 @@ Definition results_ok (c : case) (res : nat -> list (nat * nat)) : bool :=
 Definition tl_sstep (n : nat) (s : LIM.st) (t : nat) (o : op) : option (LIM.st * nat) :=
   match o_code o with
   | 0 => if Nat.eqb (o_c o) 1 then Some (s, 1) else LIM.sstep n s t (mkop 0 0 0 0)
+  | 3 => Some (s, 0)   (* a bare Cond.Signal: no effect on the limit *)
   | _ => LIM.sstep n s t o
   end.
 
@@ -51,7 +52,15 @@ Definition ao_model {Ob} (sstep : Ob -> nat -> op -> option (Ob * nat)) (o0 : Ob
   let fin := replay (AO.step sstep) (AO.busy (Ob:=Ob)) fuel (threads_of c) (c_sched c) (AO.init o0 (scripts_of c)) in
   results_ok c (fun t => map (fun r => (r, 0)) (AO.t_res (AO.ts fin t))).
 
+(* primitive numbers >= 100: the same primitive run WITHOUT a forced schedule (all goroutines run
+   freely with seeded yields).  The interleaving is then unknown, so there is nothing to replay:
+   model_ok only requires a result for every scripted call; the history is checked by spec_ok. *)
+Definition free_ok (c : case) : bool :=
+  Nat.eqb (List.length (c_results c)) (List.length (c_scripts c)) &&
+  forallb (fun t => Nat.eqb (List.length (nth t (c_results c) [])) (List.length (nth t (c_scripts c) []))) (threads_of c).
+
 Definition model_ok (c : case) : bool :=
+  if Nat.leb 100 (c_prim c) then free_ok c else
   match c_prim c with
   | 0 => let fin := replay SF.step SF.busy fuel (threads_of c) (c_sched c) (SF.init (scripts_of c)) in
          results_ok c (fun t => SF.t_res (SF.ts fin t)) && negb (SF.panicked fin)
@@ -73,7 +82,7 @@ Definition model_ok (c : case) : bool :=
   end.
 
 Definition spec_ok (c : case) : bool :=
-  match c_prim c with
+  match (if Nat.leb 100 (c_prim c) then c_prim c - 100 else c_prim c) with
   | 0 => sf_accepts (c_hist c)
   | 1 => lc_accepts (c_hist c)
   | 2 => linearizable (LIM.sstep (c_n c)) LIM.init (c_hist c)
